@@ -274,6 +274,11 @@ class Engine:
             return ("gen", elt, it)
         if isinstance(e, (ast.GeneratorExp, ast.ListComp, ast.Lambda, ast.Dict)):
             return ("opaque", ast.unparse(e))
+        if isinstance(e, (ast.Yield, ast.YieldFrom)):
+            # generator bodies are analysed like any other body: the yielded value is an effect, the value sent in is unknown
+            v = self.ev(e.value, p, fr) if e.value is not None else ("c", None)
+            p.effects.append(("yield" if isinstance(e, ast.Yield) else "yield-from", v, e.lineno))
+            return ("sent", e.lineno)
         raise Unsupported(type(e).__name__)
 
     def neg(self, v):
@@ -830,7 +835,16 @@ class Engine:
         if isinstance(s, (ast.While, ast.For, ast.AsyncFor)):
             self.loops.append((fr["fn"], s, fr))
             self.loop_entries.append((fr["fn"], s, fr, p.clone()))
-            p.effects.append(("loop", type(s).__name__, s.lineno))
+            pre_vals = {}
+            for n in ast.walk(s):
+                for t in (n.targets if isinstance(n, ast.Assign) else [n.target] if isinstance(n, (ast.AugAssign, ast.AnnAssign)) else []):
+                    for t2 in ([t] if isinstance(t, ast.Name) else t.elts if isinstance(t, ast.Tuple) else []):
+                        if isinstance(t2, ast.Name) and t2.id not in pre_vals:
+                            try:
+                                pre_vals[t2.id] = self.ev(ast.Name(id=t2.id, ctx=ast.Load()), p, fr)
+                            except Unsupported:
+                                pass
+            p.effects.append(("loop", type(s).__name__, s.lineno, tuple(sorted(pre_vals.items(), key=lambda kv: kv[0]))))
             # havoc: every local / field assigned in the loop becomes unknown afterwards
             for n in ast.walk(s):
                 if isinstance(n, (ast.Assign, ast.AugAssign, ast.AnnAssign)):
